@@ -50,6 +50,16 @@ TABLE = {
             "Symbolic execution of sum/cumsum/mean/prod/diff/ediff1d/inner/outer/matmul/det (function, method and numpy.add.reduce/accumulate spellings) with symbolic coefficients; all axes, "
             "axis tuples, keepdims, n, prepend/append; matrices 1x1..3x3 (4x4 thorough) and stacks; oracle = numpy's own fold over an object array of model polynomials, Leibniz formula for det.",
             E1_NOTE, E1_TECH),
+    "C13": ("model_checking", "E1 SymObj",
+            "Symbolic execution of __reduce__/polynomial_from_attributes through pickle protocols 0-5, copy.copy/deepcopy/.copy(), and of numpoly.savetxt / numpy.savetxt + numpoly.loadtxt with "
+            "symbolic coefficients (values travel through the text file as tokens), for 0-d, size-1, n-d arrays, strided views, single-term polynomials, retained zero columns, "
+            "delimiter/header/comments settings, paths and file objects; shape, names, exponents and coefficients must come back (proved equal under the path condition).",
+            E1_NOTE + " S5/S9: token formatter for str(Sym); structured<->unstructured conversion by field copies for object dtype. Number formatting/parsing precision is outside.", E1_TECH),
+    "C16": ("model_checking", "E1 SymObj",
+            "Symbolic execution of array_repr/array_str/__str__/__repr__ with symbolic integer-like coefficients (so 0, 1, -1, negative leading terms are solver-chosen cases) under the 8 display_* "
+            "boolean settings x alternative exponent/multiply signs; an independent recursive-descent reader evaluates the produced text over the exact model and must obtain the polynomial; "
+            "printed term order must be the selected monomial order.",
+            E1_NOTE + " S5: str(Sym) = sign + token; float/complex/bool number formatting, suppress_small and to_sympy are outside.", E1_TECH),
     "C14": ("model_checking", "E3 CrossHair",
             "CrossHair (z3) executes numpoly/option.py symbolically, unmodified: op codes, payloads and the prior option state of a call history of depth 3 (quick) / 3-5 (thorough) over 7 "
             "operation kinds are symbolic; after every step get_options() must equal a stack model and get_options(defaults=True) the shipped defaults. Only 'Confirmed over all paths' counts; "
